@@ -197,7 +197,7 @@ func describe(v reflect.Value) string {
 			if t, ok := v.Interface().(*time.Time); ok {
 				return t.Format(time.RFC3339Nano)
 			}
-			if s, ok := v.Interface().(fmt.Stringer); ok {
+			if s, ok := v.Interface().(fmt.Stringer); ok && !strings.HasSuffix(v.Type().Elem().PkgPath(), "bql/semantic") {
 				return s.String()
 			}
 		}
@@ -210,8 +210,8 @@ func describe(v reflect.Value) string {
 		}
 		var b []string
 		for i := 0; i < v.NumField(); i++ {
-			if v.Type().Field(i).PkgPath != "" {
-				continue // unexported
+			if v.Type().Field(i).PkgPath != "" || v.Field(i).IsZero() {
+				continue // unexported, or zero value (omitted to keep the traces small)
 			}
 			b = append(b, v.Type().Field(i).Name+"="+describe(v.Field(i)))
 		}
@@ -390,11 +390,23 @@ func funcName(f interface{}) string {
 	if v.Kind() != reflect.Func || v.IsNil() {
 		return ""
 	}
+	// e.g. ".../bql/semantic.dataAccumulator.func1" or, inlined,
+	// ".../bql/grammar.SemanticBQL.DataAccumulatorHook.dataAccumulator.func9": the family is the
+	// function that made the closure (last component that is not funcN / a number).
 	n := runtime.FuncForPC(v.Pointer()).Name()
 	if i := strings.LastIndex(n, "/"); i >= 0 {
 		n = n[i+1:]
 	}
-	return n
+	parts := strings.Split(n, ".")
+	for len(parts) > 1 {
+		last := parts[len(parts)-1]
+		if strings.HasPrefix(last, "func") || (len(last) > 0 && last[0] >= '0' && last[0] <= '9') || strings.HasPrefix(last, "gowrap") {
+			parts = parts[:len(parts)-1]
+			continue
+		}
+		break
+	}
+	return parts[len(parts)-1]
 }
 
 func families(g *grammar.Grammar) []string {
@@ -478,32 +490,59 @@ type stmt struct {
 	text string
 }
 
+type probeInfo struct {
+	fresh outcome
+	open  bool
+	kinds []string
+	end   string
+}
+
+var (
+	probeCache = map[string]*probeInfo{}
+	kindsCache = map[string][]string{}
+)
+
+func probeOf(text string) *probeInfo {
+	if pi, ok := probeCache[text]; ok {
+		return pi
+	}
+	fp, _ := newSemParser()
+	st2, ok2, _ := parseWith(fp, text)
+	fresh := outcomeOf(st2, ok2)
+	fp3, _ := newSemParser()
+	st3, ok3, _ := parseWith(fp3, text)
+	pi := &probeInfo{fresh: fresh, open: !sameOutcome(fresh, outcomeOf(st3, ok3))}
+	pi.kinds, pi.end = lexKinds(text)
+	probeCache[text] = pi
+	return pi
+}
+
 func emitA(src string, hist []string, probe string) {
 	p, _ := newSemParser()
 	hs := make([]hstmt, 0, len(hist))
 	for _, h := range hist {
 		_, ok, _ := parseWith(p, h)
-		ks, _ := lexKinds(h)
+		ks, seen := kindsCache[h]
+		if !seen {
+			ks, _ = lexKinds(h)
+			if len(kindsCache) < 200000 {
+				kindsCache[h] = ks
+			}
+		}
 		hs = append(hs, hstmt{Text: h, Kinds: ks, Acc: ok})
 	}
 	st, ok, _ := parseWith(p, probe)
 	reused := outcomeOf(st, ok)
-	fp, _ := newSemParser()
-	st2, ok2, _ := parseWith(fp, probe)
-	fresh := outcomeOf(st2, ok2)
-	fp3, _ := newSemParser()
-	st3, ok3, _ := parseWith(fp3, probe)
-	open := !sameOutcome(fresh, outcomeOf(st3, ok3))
-	kinds, end := lexKinds(probe)
-	ev := aEvent{Ev: "A", Src: src, Hist: hs, Text: probe, Kinds: kinds, End: end, Reused: reused, Fresh: fresh, Open: open, Attr: []string{}}
-	if !open && !sameOutcome(reused, fresh) {
-		ev.Attr, ev.Other = attribute(hist, probe, fresh)
+	pi := probeOf(probe)
+	ev := aEvent{Ev: "A", Src: src, Hist: hs, Text: probe, Kinds: pi.kinds, End: pi.end, Reused: reused, Fresh: pi.fresh, Open: pi.open, Attr: []string{}}
+	if !pi.open && !sameOutcome(reused, pi.fresh) {
+		ev.Attr, ev.Other = attribute(hist, probe, pi.fresh)
 		if ev.Attr == nil {
 			ev.Attr = []string{}
 		}
 		stats["a:differs"]++
 	}
-	if fresh.Acc {
+	if pi.fresh.Acc {
 		stats["a:probe-fresh-accepted"]++
 	}
 	tw.Emit(ev)
@@ -515,6 +554,9 @@ func historyMode(sents []sentence, nbases, nprobes, nrandom int) {
 	// statements the semantic grammar accepts on a fresh parser, by statement kind (first token)
 	byKind := map[string][]stmt{}
 	var kindsSeen []string
+	if len(sents) == 0 {
+		must(fmt.Errorf("no sentences"))
+	}
 	for _, s := range sents {
 		text := c.Text(s.S)
 		p, _ := newSemParser()
@@ -528,27 +570,62 @@ func historyMode(sents []sentence, nbases, nprobes, nrandom int) {
 		byKind[k] = append(byKind[k], stmt{s.S, text})
 	}
 	sort.Strings(kindsSeen)
-	pickRound := func(n int) []stmt { // round-robin over statement kinds, seeded choice inside a kind
+	var good []stmt
+	for _, k := range kindsSeen {
+		good = append(good, byKind[k]...)
+	}
+	stats["a:good-statements"] = len(good)
+	// greedy cover: statements are picked while they add new (owner rule, token kind) pairs, so that
+	// every hook sees every kind of token it handles; then seeded random ones up to n.
+	cover := func(n int, all bool) []stmt {
+		perm := rng.Perm(len(good))
+		seen := map[string]bool{}
 		var r []stmt
-		for len(r) < n {
-			added := false
-			for _, k := range kindsSeen {
-				if l := byKind[k]; len(l) > 0 && len(r) < n {
-					r = append(r, l[rng.Intn(len(l))])
-					added = true
+		used := map[int]bool{}
+		for {
+			best, bestGain := -1, 0
+			for _, idx := range perm {
+				if used[idx] {
+					continue
+				}
+				gain := 0
+				local := map[string]bool{}
+				for _, t := range good[idx].toks {
+					k := t.Own + "/" + t.K
+					if !seen[k] && !local[k] {
+						local[k] = true
+						gain++
+						if t.K == "BINDING" || t.K == "BEFORE" || t.K == "AFTER" || t.K == "BETWEEN" {
+							gain += 10 // the tokens whose treatment depends on what a hook remembers
+						}
+					}
+				}
+				if gain > bestGain {
+					best, bestGain = idx, gain
 				}
 			}
-			if !added {
+			if best < 0 || (len(r) >= n && !(all && bestGain >= 10)) {
 				break
+			}
+			used[best] = true
+			for _, t := range good[best].toks {
+				seen[t.Own+"/"+t.K] = true
+			}
+			r = append(r, good[best])
+		}
+		for _, idx := range perm {
+			if len(r) >= n {
+				break
+			}
+			if !used[idx] {
+				used[idx] = true
+				r = append(r, good[idx])
 			}
 		}
 		return r
 	}
-	bases, probes := pickRound(nbases), pickRound(nprobes)
-	stats["a:good-statements"] = 0
-	for _, l := range byKind {
-		stats["a:good-statements"] += len(l)
-	}
+	bases, probes := cover(nbases, false), cover(nprobes, true)
+	stats["a:bases"], stats["a:probes"] = len(bases), len(probes)
 	garbage := [][]gram.Tok{{}, {{K: "SEMICOLON"}}, {{K: "NODE"}}, {{K: "LEFT_PARENT"}}}
 	cutText := func(b stmt, cut int, g []gram.Tok) string {
 		texts := c.Texts(b.toks) // fresh concretisation of the same sentence
